@@ -245,8 +245,48 @@ impl C14Checker {
         self.rounds.insert(tag.to_string(), results);
     }
 
+    /// the getter that was called before the round set its expression, against a fresh session holding that expression
+    fn check_pre(&mut self, s: &mut Sess, tag: &str, rules_dir: &str) -> bool {
+        let Some((src0, name, got)) = self.pre.get(tag).cloned() else { return true };
+        let prefs = prefs_for_reference(s);
+        let fs = s.world.lock().fs.clone();
+        let r0 = reference_outputs(s, &fs, rules_dir, &prefs, &src0);
+        if !r0.setup_errors.is_empty() {
+            // a fresh session cannot even be set up while the outstanding fault sits in a file every start-up needs
+            // (e.g. the English fallback files): no oracle for this call
+            s.probe("first_getter_without_reference");
+            return true;
+        }
+        let exp = norm(match name.as_str() {
+            "get_overview_text" => &r0.overview,
+            "get_braille" => &r0.braille,
+            _ => &r0.speech,
+        });
+        if got != exp && !(got.is_err() && exp.is_err()) {
+            s.violation_g(
+                "recovery-incomplete",
+                format!("{} as the first call differs from fresh session after {} of {}", name, self.last_repair, self.last_fault),
+                format!("{} as the first call differs from fresh session after {} of {}", name, self.last_repair, self.last_fault.split(' ').last().unwrap_or("")),
+                format!("the first call after the repair / switch back, on the expression that was still current\nsession: {}\nfresh session: {}", got.short(), exp.short()),
+            );
+            return false;
+        }
+        s.probe("first_getter_equals_fresh_session");
+        true
+    }
+
     fn expect_equal(&mut self, s: &mut Sess, a: &str, b: &str) {
         let (Some(ra), Some(rb)) = (self.rounds.get(a).cloned(), self.rounds.get(b).cloned()) else { return };
+        // the first call of round b (made before the round set its expression) has no counterpart in round a: it is compared
+        // with a fresh session (whose configuration does not touch the files that are still broken). Only when the session
+        // has not taken in content of a fault that may legally load.
+        if !self.tainted {
+            if let Some(dir) = s.rules_dir.clone() {
+                if !self.check_pre(s, b, &dir) {
+                    return;
+                }
+            }
+        }
         for ((name, x), (_, y)) in ra.iter().zip(rb.iter()) {
             if x != y {
                 s.violation_g(
@@ -279,24 +319,8 @@ impl C14Checker {
         if !r.setup_errors.is_empty() {
             s.note(format!("reference set-up errors: {:?}", r.setup_errors));
         }
-        // the getter that was called before the round set its expression, against a fresh session holding that expression
-        if let Some((src0, name, got)) = self.pre.get(tag).cloned() {
-            let r0 = reference_outputs(s, &fs, rules_dir, &prefs, &src0);
-            let exp = norm(match name.as_str() {
-                "get_overview_text" => &r0.overview,
-                "get_braille" => &r0.braille,
-                _ => &r0.speech,
-            });
-            if got != exp && !(got.is_err() && exp.is_err()) {
-                s.violation_g(
-                    "recovery-incomplete",
-                    format!("{} as the first call differs from fresh session after {} of {}", name, self.last_repair, self.last_fault),
-                    format!("{} as the first call differs from fresh session after {} of {}", name, self.last_repair, self.last_fault.split(' ').last().unwrap_or("")),
-                    format!("the first call after the repair / switch back, on the expression that was still current\nsession: {}\nfresh session: {}", got.short(), exp.short()),
-                );
-                return;
-            }
-            s.probe("first_getter_equals_fresh_session");
+        if !self.check_pre(s, tag, rules_dir) {
+            return;
         }
         let expected = [("set_mathml", norm(&r.set_mathml)), ("get_spoken_text", norm(&r.speech)), ("get_braille", norm(&r.braille)), ("get_overview_text", norm(&r.overview))];
         for (i, (name, exp)) in expected.iter().enumerate() {
